@@ -173,7 +173,7 @@ def reducedish(rng):
 
 def workload(ctx):
     rng = ctx.rng(1)
-    for i in range(ctx.n(700, 9000)):
+    for i in range(ctx.n(700, 20000)):
         kind = KINDS[i % len(KINDS)]
         if kind == "oblique":
             c, _ = gen.cell(rng, ["generic", "oblique", "one90", "two_equal"][int(rng.integers(4))])
